@@ -23,11 +23,45 @@ struct PropIr {
     required: bool,
 }
 
+/// Type declarations may refer to themselves (`type A = A`, `interface A extends A`,
+/// `type A = { x: A["x"] }`); resolution gives up with an error beyond this depth.
+const MAX_TYPE_RESOLUTION_DEPTH: usize = 256;
+
+pub(crate) struct TypeResolutionDepthGuard<'a>(&'a std::cell::Cell<usize>);
+
+impl Drop for TypeResolutionDepthGuard<'_> {
+    fn drop(&mut self) {
+        self.0.set(self.0.get().saturating_sub(1));
+    }
+}
+
 impl<C> VueJsxTransformVisitor<C>
 where
     C: Comments,
 {
+    fn enter_type_resolution(&self, span: Span) -> Option<TypeResolutionDepthGuard<'_>> {
+        if self.type_resolution_aborted.get() {
+            return None;
+        }
+        let depth = self.type_resolution_depth.get();
+        if depth >= MAX_TYPE_RESOLUTION_DEPTH {
+            // stop the whole resolution, not just this branch, so that a cycle
+            // with several branches can't take exponential time
+            self.type_resolution_aborted.set(true);
+            HANDLER.with(|handler| {
+                handler.span_err(
+                    span,
+                    "Type is nested too deeply or refers to itself and can't be resolved.",
+                );
+            });
+            return None;
+        }
+        self.type_resolution_depth.set(depth + 1);
+        Some(TypeResolutionDepthGuard(&self.type_resolution_depth))
+    }
+
     pub(crate) fn extract_props_type(&mut self, setup_fn: &ExprOrSpread) -> Option<Expr> {
+        self.type_resolution_aborted.set(false);
         let mut defaults = None;
         let first_param_type = if let ExprOrSpread { expr, spread: None } = setup_fn {
             match &**expr {
@@ -360,6 +394,13 @@ where
     }
 
     fn resolve_type_elements(&self, ty: &TsType, props: &mut Vec<RefinedTsTypeElement>) {
+        let Some(_depth_guard) = self.enter_type_resolution(ty.span()) else {
+            return;
+        };
+        self.resolve_type_elements_impl(ty, props)
+    }
+
+    fn resolve_type_elements_impl(&self, ty: &TsType, props: &mut Vec<RefinedTsTypeElement>) {
         #[cfg(feature = "verif-hooks")]
         let _verif_guard = crate::verif::resolve_enter(0);
         match ty {
@@ -590,6 +631,13 @@ where
     }
 
     fn resolve_string_or_union_strings(&self, ty: &TsType) -> Vec<Atom> {
+        let Some(_depth_guard) = self.enter_type_resolution(ty.span()) else {
+            return vec![];
+        };
+        self.resolve_string_or_union_strings_impl(ty)
+    }
+
+    fn resolve_string_or_union_strings_impl(&self, ty: &TsType) -> Vec<Atom> {
         #[cfg(feature = "verif-hooks")]
         let _verif_guard = crate::verif::resolve_enter(1);
         match ty {
@@ -643,6 +691,13 @@ where
     }
 
     fn resolve_indexed_access(&self, obj: &TsType, index: &TsType) -> Option<TsType> {
+        let Some(_depth_guard) = self.enter_type_resolution(obj.span()) else {
+            return None;
+        };
+        self.resolve_indexed_access_impl(obj, index)
+    }
+
+    fn resolve_indexed_access_impl(&self, obj: &TsType, index: &TsType) -> Option<TsType> {
         #[cfg(feature = "verif-hooks")]
         let _verif_guard = crate::verif::resolve_enter(2);
         match obj {
@@ -948,6 +1003,13 @@ where
     }
 
     fn infer_runtime_type(&self, ty: &TsType) -> IndexSet<Option<Atom>> {
+        let Some(_depth_guard) = self.enter_type_resolution(ty.span()) else {
+            return IndexSet::new();
+        };
+        self.infer_runtime_type_impl(ty)
+    }
+
+    fn infer_runtime_type_impl(&self, ty: &TsType) -> IndexSet<Option<Atom>> {
         #[cfg(feature = "verif-hooks")]
         let _verif_guard = crate::verif::resolve_enter(3);
         let mut runtime_types = IndexSet::with_capacity(1);
@@ -1108,6 +1170,7 @@ where
     }
 
     pub(crate) fn extract_emits_type(&self, setup_fn: &ExprOrSpread) -> Option<ArrayLit> {
+        self.type_resolution_aborted.set(false);
         let TsTypeAnn {
             type_ann: second_param_type,
             ..
